@@ -114,8 +114,8 @@ static void big_case(uint64_t idx)
 {
     vh_rng r; const vh_cipher *c = &vh_ciphers[idx % CIPH_N];
     int be = (int)((idx / CIPH_N) % (uint64_t)(maxbe[c->id] + 1)), dec = (int)((idx / 9) & 1), inplace = (int)((idx / 18) & 1);
-    static const uint32_t NB[] = {4096, 4097, 8191, 65535, 65536, 65537, 70001, 131073, 262145, 524289, 1048577, 524296};
-    uint32_t nb = NB[(idx / 36) % 12], b; size_t len = (size_t)nb * c->bb;
+    static const uint32_t NB[] = {4096, 4097, 8191, 65535, 65536, 65537, 70001, 131073, 262145, 524289, 1048577, 524296, 4194312};   /* the last one: a single request of 32 MiB (8-byte blocks) / 64 MiB and a bit */
+    uint32_t nb = NB[(idx / 36) % 13], b; size_t len = (size_t)nb * c->bb;
     uint8_t key[48], *in = malloc(len), *out = malloc(len), *tw = malloc(len), *exp_ = malloc(len);
     unsigned klen, rounds = 5 + (unsigned)(idx % 4);
     vh_handle h; char pfx[160], d[300]; int ret;
@@ -182,6 +182,44 @@ static void ragged_big(uint64_t idx, const vh_cipher *c, vh_rng *r)
     }
 }
 
+/* xbe, change counts (see drv_ctr): use, then exactly N set_key calls in a row (N around 2^8 and 2^16), then use again; encrypt and
+   decrypt of whole batches and left-over blocks must equal a fresh object that only ever saw the last key */
+static void change_count_case(uint64_t idx, const vh_cipher *c, vh_rng *r)
+{
+    static const unsigned NS[] = {255, 256, 257, 511, 512, 513, 65535, 65536, 65537, 1, 2, 131072};
+    unsigned N = NS[(idx / 40) % 12], k; int be, nbe = maxbe[c->id] + 1; char pfx[160];
+    uint8_t key[48], last[48], in[19 * 16], tw[19 * 16], o1[2][19 * 16], o2[2][19 * 16], w[19 * 16]; size_t len = 19 * (size_t)c->bb;
+    vh_rand_bytes(r, key, 48); vh_rand_bytes(r, in, sizeof(in)); vh_rand_bytes(r, tw, sizeof(tw));
+    for (be = 0; be < nbe; ++be) {
+        vh_handle h, f; int ra = 1, rb = 1, swaps = (int)vh_below(r, 2); unsigned rounds = 5 + vh_below(r, 4), klen = c->id == CIPH_MANTIS ? 16 : c->bb * (1 + vh_below(r, 3));
+        vh_rng q; vh_rng_seed(&q, vh_rand(r), 0xCA, 7);
+        memset(&h, 0, sizeof(h)); memset(&f, 0, sizeof(f)); vh_set_cap(be);
+        snprintf(pfx, sizeof(pfx), "%s:%s-parallel:%s:change-count", prop, c->name, vh_backend_names[be]); vh_set_crash_key(pfx);
+        vh_call_begin("change-count history");
+        ra &= c->par_init(&h); ra &= c->par_set_key(&h, key, klen, rounds, MANTIS_ENCRYPT);
+        ra &= c->par_encrypt(w, in, tw, len, &h); if (c->par_decrypt) ra &= c->par_decrypt(w, in, tw, len, &h);     /* first use: lazily built state is now current */
+        memcpy(last, key, 48);
+        for (k = 0; k < N; ++k) {
+            vh_rand_bytes(&q, last, 48); ra &= c->par_set_key(&h, last, klen, rounds, MANTIS_ENCRYPT);
+            if (swaps && c->par_swap && (k & 1)) c->par_swap(&h), c->par_swap(&h);                                      /* short interludes that change nothing */
+            if ((k & 1023) == 5) ra &= c->par_encrypt(w, in, tw, 3 * c->bb, &h);                                        /* ... and a few requests below one batch */
+        }
+        ra &= c->par_encrypt(o1[0], in, tw, len, &h); if (c->par_decrypt) ra &= c->par_decrypt(o1[1], in, tw, len, &h);
+        c->par_cleanup(&h);
+        rb &= c->par_init(&f); rb &= c->par_set_key(&f, last, klen, rounds, MANTIS_ENCRYPT);
+        rb &= c->par_encrypt(o2[0], in, tw, len, &f); if (c->par_decrypt) rb &= c->par_decrypt(o2[1], in, tw, len, &f);
+        c->par_cleanup(&f);
+        vh_call_end();
+        VH_COUNT("change_count_histories", 1); VH_MAXC("max_consecutive_key_changes_on_one_object", N);
+        if (ra != 1 || rb != 1 || memcmp(o1[0], o2[0], len) || (c->par_decrypt && memcmp(o1[1], o2[1], len))) {
+            char key_[220], d[260];
+            snprintf(key_, sizeof(key_), "%s:%s-parallel:%s:result-depends-on-the-number-of-earlier-set_key-calls", prop, c->name, vh_backend_names[be]);
+            snprintf(d, sizeof(d), "{\"cipher\":\"%s\",\"backend\":\"%s\",\"changes\":%u,\"rets\":[%d,%d],\"encrypt_differs\":%d,\"driver\":\"drv_par\",\"mode\":\"xbe\",\"case\":%llu}", c->name, vh_backend_names[be], N, ra, rb, memcmp(o1[0], o2[0], len) != 0, (unsigned long long)idx);
+            vh_violation(key_, d, d);
+        }
+    }
+}
+
 static void one_case(uint64_t idx)
 {
     vh_rng r;
@@ -199,6 +237,7 @@ static void one_case(uint64_t idx)
         vh_case_begin(idx, pfx, d.p); sb_free(&d);
     }
     if (!strcmp(vh_arg_mode, "twin") && idx % 40 == 9) { ragged_big(idx, c, &r); return; }
+    if (!strcmp(vh_arg_mode, "xbe") && idx % 40 == 23) { change_count_case(idx, c, &r); return; }
     if (!strcmp(vh_arg_mode, "model") && idx < nstruct) { gen_structured(&H, c, idx / CIPH_N, &r); VH_COUNT("structured_cases", 1); }
     else phist_gen(&H, c, &r, g);
     VH_COUNT("histories", 1); VH_COUNT("ops", H.n);
